@@ -68,7 +68,10 @@ EvEnd == /\ E.t = "end" /\ P' = P
          \* after time has been advanced past every timeout no request is left waiting
          /\ bad' = bad \cup Flag("C19_AllServed", E.hung = 0 /\ P.done = P.called)
 EvOther == /\ E.t \in {"advance", "peer_content"} /\ P' = P /\ bad' = bad
-Next == /\ l <= Len(Tr) /\ (EvConn \/ EvPeer \/ EvCall \/ EvRet \/ EvEnd \/ EvOther) /\ l' = l + 1 /\ UNCHANGED tid
+\* model replay (drivers/c11m.py, reuse behaviours of spec/RelayClient.tla)
+EvDrift == /\ E.t = "drift" /\ P' = P
+           /\ bad' = bad \cup Flag("DRIFT_Result", ~E.result) \cup Flag("DRIFT_Conversation", ~E.conv)
+Next == /\ l <= Len(Tr) /\ (EvConn \/ EvPeer \/ EvCall \/ EvRet \/ EvEnd \/ EvOther \/ EvDrift) /\ l' = l + 1 /\ UNCHANGED tid
 Spec == Init /\ [][Next]_vars
 AtEnd == l = Len(Tr) + 1
 Watch == AtEnd => PrintT(<<"END", T.id, bad>>)
